@@ -249,7 +249,7 @@ func (*reader).getMessages
     requires rdWf(r)
     assigns r.messages, r.messagesInuse
     ensures err == nil ==> ret0 != nil && ret0.gfile == r.gfile && r.messages == ret0
-    ensures err != nil ==> r.messages == old(r.messages) && (ioerr(err) || is(err, message.ErrCorrupted))
+    ensures err != nil ==> r.messages == old(r.messages) && ioerr(err)
 
 func (*reader).GetNextOffset
     flags locks
